@@ -127,9 +127,22 @@ def _r2(model, res, singles):
                 if var is None:
                     res.ob('R2', name, desc, True, 'undecided: parsed value not found')
                     continue
-            rets = [r for r in walk_no_defs(f) if isinstance(r, ast.Return)]
-            for r in rets:
-                facts = guards.facts_at(m, f, r, no_kill=(var,))
+            rets = []
+            for r in walk_no_defs(f):
+                if not isinstance(r, ast.Return):
+                    continue
+                # single-exit style (result = ...; return result): the value-producing sites are the assignments
+                if isinstance(r.value, ast.Name) and r.value.id not in ps:
+                    asg = [(st, val) for st, val in sa.assignments_to(f, r.value.id) if val is not None and isinstance(st, ast.Assign)]
+                    if asg and len(asg) == len(sa.assignments_to(f, r.value.id)):
+                        for st, val in asg:
+                            shim = ast.Return(value=val)
+                            ast.copy_location(shim, st)
+                            rets.append((st, shim))
+                        continue
+                rets.append((r, r))
+            for at, r in rets:
+                facts = guards.facts_at(m, f, at, no_kill=(var,))
                 if _is_error_return(model, m, f, r, facts):
                     continue
                 # a return inside an exception handler for a failed parse is an error exit as well
@@ -388,4 +401,4 @@ def _r7(model, res, E):
                           'also looks like a number (e.g. "1E5") is then read as that number' % texts, func=f.name)
         if o.kind == 'return' and isinstance(o.value, Atom):
             pass
-    res.floor('HEX2DEC traces', n, 2)
+    res.soft_floor('HEX2DEC traces', n, 2)
